@@ -165,7 +165,7 @@ func generate(run *vx.Run, exec func(string)) {
 	// exhaustive lengths: reduced alphabet x all (mode, cmd); core alphabet x all; core alphabet x rotating (mode, cmd)
 	redLen, coreAll, coreRot, rot, nRand, nDeep := 2, 3, 4, 2, 5000, 1500
 	if run.Thorough() {
-		redLen, coreAll, coreRot, rot, nRand, nDeep = 3, 4, 5, 1, 40000, 10000
+		redLen, coreAll, coreRot, rot, nRand, nDeep = 3, 4, 5, 1, 30000, 8000
 	}
 	if v := os.Getenv("C10_NRAND"); v != "" {
 		nRand, _ = strconv.Atoi(v)
